@@ -369,11 +369,23 @@ func (s *regSys) Key() string {
 		d.Add(fmt.Sprintf("h%d", i), h)
 	}
 	d.Add("reg", s.raw)
+	if w, ok := s.reg.(interface{}); ok && !sameObject(s.reg, s.raw) {
+		// the object under test when it is a wrapper around the raw registry: any state it keeps
+		// (a cache, a memo) is part of the state, or successors of a poisoned wrapper are never explored
+		d.SkipTypes = append(d.SkipTypes, "verif/props.") // harness-side fakes contribute through extraKey
+		d.Add("wrapper", w)
+	}
 	k := d.String() + "\nmodel=" + s.model.Key()
 	if s.extraKey != nil {
 		k += "\n" + s.extraKey()
 	}
 	return k
+}
+
+// sameObject: reg is the raw registry itself (pointer identity).
+func sameObject(a ociregistry.Interface, raw any) bool {
+	r, ok := raw.(ociregistry.Interface)
+	return ok && a == r
 }
 
 func c02Alphabet(u *universe, tier string, chunked bool) alphabetConfig {
